@@ -146,7 +146,8 @@ def getCfg (j : Json) : Except String Cfg := do
          rowViewsFix := ← getBool (← field j "rowviews"),
          arrayViewsFix := ← getBool (← field j "arrayviews"),
          appendFix := ← getBool (← field j "append"),
-         priorityFix := ← getBool (← field j "priority") }
+         priorityFix := ← getBool (← field j "priority"),
+         appendEmptyFix := ← getBool (← field j "appendempty") }
 
 def initState (cfg : Cfg) (rows : List (List Rat)) (ctor : String) : Except String (Except Err (State Rat)) :=
   match ctor with
